@@ -33,6 +33,7 @@ type Case struct {
 	F      string            `json:"f"`
 	Tree   json.RawMessage   `json:"tree"`
 	Assoc  bool              `json:"assoc"`
+	Depth  int               `json:"depth"` // json_decode's third argument; 0 = not passed
 	Extra  map[string]string `json:"extra"`
 }
 
